@@ -510,7 +510,7 @@ def gen_vals(rng: random.Random, n: int, dtype: str, stream: str):
 
 
 def gen_labels(rng: random.Random, n: int, ngroups: int, missing: float, pattern: str = "random"):
-    base = rng.sample([0, 1, 2, 3, 4, 7, 9, -2], ngroups)
+    base = rng.sample([0, 1, 2, 3, 4, 7, 9, -2, -1], ngroups)   # (-1 is also the code flox gives missing labels)
     if pattern == "sorted":
         labs = sorted(rng.choice(base) for _ in range(n))
     elif pattern == "periodic":
